@@ -804,7 +804,7 @@ Definition do_closed (c : conn) : R :=
   let c := set_unsuback (set_suback (set_pid c a) []) [] in
   bindr
     (if negb (c_need_store c) then
-       let c := set_qos2 c [] in
+       let c := set_store (set_qos2 c []) [] in
        bindr (drain_release (c_pid c) (c_puback c)) (fun '(a, e3) =>
        bindr (drain_release a (c_pubrec c)) (fun '(a, e4) =>
        bindr (drain_release a (c_pubcomp c)) (fun '(a, e5) =>
